@@ -1400,18 +1400,23 @@ class SVG:
 
         # https://github.com/googlefonts/picosvg/issues/269 remove empty subpaths *after* rounding
         self.remove_empty_subpaths(inplace=True)
-        self.remove_unpainted_shapes(inplace=True)
 
-        # pruning may orphan gradients (their only user was invisible) ...
-        self._remove_orphaned_gradients()
-        self.elements = None
-        # ... and leave groups with fewer than two children: flatten them
-        for context in reversed(list(self.depth_first())):
-            if _is_group(context.element):
-                _try_remove_group(context.element)
-        # opacities pushed down from flattened groups need rounding (and the canonical
-        # attribute order of a flushed shape) too
-        self.round_floats(ndigits, inplace=True)
+        # pruning may orphan gradients (their only user was invisible) and leave groups
+        # with fewer than two children; flattening those pushes their opacity down, and
+        # the rounded product may in turn make a shape invisible: repeat until stable
+        while True:
+            num_shapes = len(self.shapes())
+            self.remove_unpainted_shapes(inplace=True)
+            self._remove_orphaned_gradients()
+            self.elements = None
+            for context in reversed(list(self.depth_first())):
+                if _is_group(context.element):
+                    _try_remove_group(context.element)
+            # opacities pushed down from flattened groups need rounding (and the
+            # canonical attribute order of a flushed shape) too
+            self.round_floats(ndigits, inplace=True)
+            if len(self.shapes()) == num_shapes:
+                break
 
         violations = self.checkpicosvg(
             allow_text=allow_text, drop_unsupported=drop_unsupported
